@@ -76,20 +76,20 @@ MUTANTS = [
          why="smooth_fa_freqs setter leaves the previously smoothed spectrum cached"),
     # ---- bandwidth limits
     dict(id="c07-bw-fmax-first", prop="C07", file="eqsig/im.py",
-         old="    max_freq = asig.smooth_fa_frequencies[ind2[0][-1]]\n    return max_freq",
-         new="    max_freq = asig.smooth_fa_frequencies[ind2[0][0]]\n    return max_freq",
-         why="calc_bandwidth_f_max returns the first instead of the last frequency above the threshold"),
+         old="    return np.max(freqs_above)\n", new="    return np.min(freqs_above)\n",
+         why="calc_bandwidth_f_max returns the smallest instead of the largest frequency above the threshold"),
     dict(id="c07-bw-fmin-off-by-one", prop="C07", file="eqsig/im.py",
-         old="    min_freq = asig.smooth_fa_frequencies[ind2[0][0]]\n    max_freq = asig.smooth_fa_frequencies[ind2[0][-1]]\n    return min_freq, max_freq",
-         new="    min_freq = asig.smooth_fa_frequencies[max(ind2[0][0] - 1, 0)]\n    max_freq = asig.smooth_fa_frequencies[ind2[0][-1]]\n    return min_freq, max_freq",
+         old="    return np.min(freqs_above), np.max(freqs_above)",
+         new="    f_all = np.sort(np.asarray(asig.smooth_fa_frequencies))\n"
+             "    return f_all[max(np.searchsorted(f_all, np.min(freqs_above)) - 1, 0)], np.max(freqs_above)",
          why="calc_bandwidth_freqs lower limit one grid point early"),
     dict(id="c07-bw-fa-grid", prop="C07", file="eqsig/fns/frequency.py",
-         old="    return np.take(asig.smooth_fa_frequencies, indices)",
-         new="    return np.take(asig.fa_frequencies, indices)",
+         old="    freqs_above = np.asarray(asig.smooth_fa_frequencies)[fas1_smooth > max(fas1_smooth) / ratio]",
+         new="    freqs_above = np.asarray(asig.fa_frequencies)[np.where(fas1_smooth > max(fas1_smooth) / ratio)[0]]",
          why="get_sig_freq_range indexes the Fourier grid instead of the smoothing grid"),
     dict(id="c07-bw-ratio-squared", prop="C07", file="eqsig/im.py",
-         old="    lim_fas = max_fas1 * ratio\n    ind2 = np.where(fas1_smooth > lim_fas)\n    min_freq = asig.smooth_fa_frequencies[ind2[0][0]]\n    return min_freq",
-         new="    lim_fas = max_fas1 * ratio ** 2\n    ind2 = np.where(fas1_smooth > lim_fas)\n    min_freq = asig.smooth_fa_frequencies[ind2[0][0]]\n    return min_freq",
+         old="    lim_fas = max_fas1 * ratio\n    freqs_above = np.asarray(asig.smooth_fa_frequencies)[np.where(fas1_smooth > lim_fas)[0]]\n    return np.min(freqs_above)\n",
+         new="    lim_fas = max_fas1 * ratio ** 2\n    freqs_above = np.asarray(asig.smooth_fa_frequencies)[np.where(fas1_smooth > lim_fas)[0]]\n    return np.min(freqs_above)\n",
          why="calc_bandwidth_f_min uses ratio^2 (power instead of amplitude ratio)"),
     dict(id="c07-bw-global-peak-only", prop="C07", file="eqsig/fns/frequency.py",
          old="    indys = np.where(fas1_smooth > lim_fas)[0]\n    return indys[0], indys[-1]",
@@ -193,9 +193,9 @@ MUTANTS += [
              "    return out",
          why="window: more than 5 000 Fourier frequencies (records > 10 000 samples) -> chunked product, the remainder rows are dropped"),
     dict(id="c07-mid-object-size-keyed-cache", prop="C07", file="eqsig/single.py",
-         old="        if smooth_fa_freqs is not None:\n            self._smooth_fa_freqs = smooth_fa_freqs\n"
+         old="        if smooth_fa_freqs is not None:\n            self._smooth_fa_freqs = np.array(smooth_fa_freqs, dtype=float)\n"
              "        self._smooth_fa_spectrum = calc_smooth_fa_spectrum(self.fa_freqs,",
-         new="        if smooth_fa_freqs is not None:\n            self._smooth_fa_freqs = smooth_fa_freqs\n"
+         new="        if smooth_fa_freqs is not None:\n            self._smooth_fa_freqs = np.array(smooth_fa_freqs, dtype=float)\n"
              "        size = len(self.fa_freqs) * len(self.smooth_fa_freqs)\n"
              "        key = (len(self.fa_freqs), len(self.smooth_fa_freqs), band)\n"
              "        if 200000 <= size <= 4000000 and getattr(self, '_smooth_key', None) == key:\n"
@@ -215,12 +215,10 @@ MUTANTS += [
              "    return np.concatenate(parts)",
          why="window: more than 100 targets -> the deprecated alias works in chunks of 64 targets and passes the band to the first chunk only"),
     dict(id="c07-mid-bandwidth-decimated-search", prop="C07", file="eqsig/im.py",
-         old="    ind2 = np.where(fas1_smooth > lim_fas)\n    min_freq = asig.smooth_fa_frequencies[ind2[0][0]]\n"
-             "    max_freq = asig.smooth_fa_frequencies[ind2[0][-1]]\n    return min_freq, max_freq",
-         new="    ind2 = np.where(fas1_smooth > lim_fas)\n"
-             "    if len(fas1_smooth) > 3000:\n        ind2 = (np.where(fas1_smooth[::2] > lim_fas)[0] * 2,)  # coarse search on long spectra\n"
-             "    min_freq = asig.smooth_fa_frequencies[ind2[0][0]]\n"
-             "    max_freq = asig.smooth_fa_frequencies[ind2[0][-1]]\n    return min_freq, max_freq",
+         old="    freqs_above = np.asarray(asig.smooth_fa_frequencies)[np.where(fas1_smooth > lim_fas)[0]]\n    return np.min(freqs_above), np.max(freqs_above)",
+         new="    freqs_above = np.asarray(asig.smooth_fa_frequencies)[np.where(fas1_smooth > lim_fas)[0]]\n    if len(fas1_smooth) > 3000:  # coarse search on long spectra\n"
+             "        freqs_above = np.asarray(asig.smooth_fa_frequencies)[::2][np.where(fas1_smooth[::2] > lim_fas)[0]]\n"
+             "    return np.min(freqs_above), np.max(freqs_above)",
          why="window: more than 3 000 smoothing frequencies -> calc_bandwidth_freqs searches every other point (limits off by one grid point)"),
     dict(id="c07-mid-object-long-record-decimated", prop="C07", file="eqsig/single.py",
          old="        self._smooth_fa_spectrum = calc_smooth_fa_spectrum(self.fa_freqs,\n"
@@ -271,8 +269,8 @@ MUTANTS += [
          why="audit A: calc_bandwidth_freqs / f_min / f_max read the private buffer: wrong / IndexError when nothing has read the "
              "smoothed spectrum since the object was built or a setter was used"),
     dict(id="c07-audit-A2-freq-range-reads-private-buffer", prop="C07", file="eqsig/fns/frequency.py",
-         old="    indices = get_sig_array_indexes_range(asig.smooth_fa_spectrum, ratio=ratio)",
-         new="    indices = get_sig_array_indexes_range(asig._smooth_fa_spectrum, ratio=ratio)",
+         old="    fas1_smooth = np.asarray(asig.smooth_fa_spectrum)\n    freqs_above",
+         new="    fas1_smooth = np.asarray(asig._smooth_fa_spectrum)\n    freqs_above",
          why="audit A: get_sig_freq_range reads the private buffer (cold cache)"),
     dict(id="c07-audit-B-custom-matrix-reads-private-fas", prop="C07", file="eqsig/fns/frequency.py",
          old="    return np.dot(abs(asig.fa_spectrum[1:]), smooth_matrix)",
@@ -289,9 +287,9 @@ MUTANTS += [
          old="    if fa_frequencies[0] == 0:\n", new="    if fa_frequencies[0] < 1e-6:\n",
          why="audit D: a first frequency below 1e-6 Hz is treated as the 0 Hz bin"),
     dict(id="c07-audit-E-small-size-length-keyed-cache", prop="C07", file="eqsig/single.py",
-         old="        if smooth_fa_freqs is not None:\n            self._smooth_fa_freqs = smooth_fa_freqs\n"
+         old="        if smooth_fa_freqs is not None:\n            self._smooth_fa_freqs = np.array(smooth_fa_freqs, dtype=float)\n"
              "        self._smooth_fa_spectrum = calc_smooth_fa_spectrum(self.fa_freqs,",
-         new="        if smooth_fa_freqs is not None:\n            self._smooth_fa_freqs = smooth_fa_freqs\n"
+         new="        if smooth_fa_freqs is not None:\n            self._smooth_fa_freqs = np.array(smooth_fa_freqs, dtype=float)\n"
              "        key = (len(self.fa_freqs), len(self.smooth_fa_freqs), band)\n"
              "        if len(self.fa_freqs) * len(self.smooth_fa_freqs) < 100000 and getattr(self, '_smooth_key', None) == key:\n"
              "            self._cached_smooth_fa = True\n"
@@ -300,4 +298,25 @@ MUTANTS += [
              "        self._smooth_fa_spectrum = calc_smooth_fa_spectrum(self.fa_freqs,",
          why="audit E: below 1e5 pairs the smoothed spectrum is kept while sizes and band are unchanged: stale after other targets / "
              "values of the same length"),
+]
+
+# ---------------------------------------------------------------------------
+# reverts of the repairs of C07-KF1 (/repo 512613e) and C07-KF2 (/repo e2823b0)
+MUTANTS += [
+    dict(id="c07-revert-kf1-bandwidth-freqs", prop="C07", file="eqsig/im.py",
+         old="    return np.min(freqs_above), np.max(freqs_above)", new="    return freqs_above[0], freqs_above[-1]",
+         why="revert of 512613e in calc_bandwidth_freqs: first / last array entry above the threshold (f_min > f_max on non-ascending smoothing frequencies)"),
+    dict(id="c07-revert-kf1-f-min", prop="C07", file="eqsig/im.py",
+         old="    return np.min(freqs_above)\n", new="    return freqs_above[0]\n",
+         why="revert of 512613e in calc_bandwidth_f_min: first array entry above the threshold"),
+    dict(id="c07-revert-kf1-f-max", prop="C07", file="eqsig/im.py",
+         old="    return np.max(freqs_above)\n", new="    return freqs_above[-1]\n",
+         why="revert of 512613e in calc_bandwidth_f_max: last array entry above the threshold"),
+    dict(id="c07-revert-kf1-freq-range", prop="C07", file="eqsig/fns/frequency.py",
+         old="    return np.array([np.min(freqs_above), np.max(freqs_above)])", new="    return np.array([freqs_above[0], freqs_above[-1]])",
+         why="revert of 512613e in get_sig_freq_range: first / last array entry above the threshold"),
+    dict(id="c07-revert-kf2-gen-stores-list", prop="C07", file="eqsig/single.py",
+         old="            self._smooth_fa_freqs = np.array(smooth_fa_freqs, dtype=float)\n        self._smooth_fa_spectrum = calc_smooth_fa_spectrum(",
+         new="            self._smooth_fa_freqs = smooth_fa_freqs\n        self._smooth_fa_spectrum = calc_smooth_fa_spectrum(",
+         why="revert of e2823b0: gen_smooth_fa_spectrum stores a list / tuple as it is (TypeError in the smoothing)"),
 ]
